@@ -4,6 +4,25 @@ use crate::run::Ctx;
 use serde_json::Value;
 
 pub mod c01;
+pub mod c02;
+pub mod c03;
+pub mod c04;
+pub mod c05;
+pub mod c06;
+pub mod c07;
+pub mod c08;
+pub mod c09;
+pub mod c10;
+pub mod c11;
+pub mod c12;
+pub mod c13;
+pub mod c14;
+pub mod c15;
+pub mod c16;
+pub mod c17;
+pub mod c18;
+pub mod c19;
+pub mod c20;
 
 pub const IDS: [&str; 20] = [
     "C01", "C02", "C03", "C04", "C05", "C06", "C07", "C08", "C09", "C10", "C11", "C12", "C13", "C14", "C15", "C16",
@@ -13,8 +32,27 @@ pub const IDS: [&str; 20] = [
 pub fn run(ctx: &mut Ctx) {
     match ctx.id {
         "C01" => c01::run(ctx),
+        "C02" => c02::run(ctx),
+        "C03" => c03::run(ctx),
+        "C04" => c04::run(ctx),
+        "C05" => c05::run(ctx),
+        "C06" => c06::run(ctx),
+        "C07" => c07::run(ctx),
+        "C08" => c08::run(ctx),
+        "C09" => c09::run(ctx),
+        "C10" => c10::run(ctx),
+        "C11" => c11::run(ctx),
+        "C12" => c12::run(ctx),
+        "C13" => c13::run(ctx),
+        "C14" => c14::run(ctx),
+        "C15" => c15::run(ctx),
+        "C16" => c16::run(ctx),
+        "C17" => c17::run(ctx),
+        "C18" => c18::run(ctx),
+        "C19" => c19::run(ctx),
+        "C20" => c20::run(ctx),
         other => {
-            eprintln!("property {other} has no check yet");
+            eprintln!("unknown property {other}");
             std::process::exit(2);
         }
     }
@@ -23,6 +61,25 @@ pub fn run(ctx: &mut Ctx) {
 pub fn replay(ctx: &mut Ctx, sub: &str, case: &Value) -> bool {
     match ctx.id {
         "C01" => c01::replay(ctx, sub, case),
+        "C02" => c02::replay(ctx, sub, case),
+        "C03" => c03::replay(ctx, sub, case),
+        "C04" => c04::replay(ctx, sub, case),
+        "C05" => c05::replay(ctx, sub, case),
+        "C06" => c06::replay(ctx, sub, case),
+        "C07" => c07::replay(ctx, sub, case),
+        "C08" => c08::replay(ctx, sub, case),
+        "C09" => c09::replay(ctx, sub, case),
+        "C10" => c10::replay(ctx, sub, case),
+        "C11" => c11::replay(ctx, sub, case),
+        "C12" => c12::replay(ctx, sub, case),
+        "C13" => c13::replay(ctx, sub, case),
+        "C14" => c14::replay(ctx, sub, case),
+        "C15" => c15::replay(ctx, sub, case),
+        "C16" => c16::replay(ctx, sub, case),
+        "C17" => c17::replay(ctx, sub, case),
+        "C18" => c18::replay(ctx, sub, case),
+        "C19" => c19::replay(ctx, sub, case),
+        "C20" => c20::replay(ctx, sub, case),
         _ => false,
     }
 }
